@@ -28,6 +28,7 @@ var srcTargets = []srcTarget{
 	{Group: "Subject", Recv: "Subject", Name: "HasWildCards"},
 	{Group: "Subject", Recv: "Subject", Name: "IsContainedIn"},
 	{Group: "Subject", Recv: "Exports", Name: "HasExportContainingSubject"},
+	{Group: "Subject", Recv: "RenamingSubject", Name: "ToSubject", Only: "V2"},
 	{Group: "Hash", Name: "cleanSubject"},
 	{Group: "Hash", Recv: "ActivationClaims", Name: "HashID"},
 	{Group: "Header", Recv: "Header", Name: "Valid"},
@@ -112,6 +113,8 @@ var srcTargets = []srcTarget{
 	{Group: "ValidateClaims", Name: "ParseServerVersion", Only: "V2"},
 	{Group: "ValidateClaims", Recv: "Operator", Name: "Validate", Only: "V2"},
 	{Group: "ValidateClaims", Recv: "OperatorClaims", Name: "Validate", Only: "V2"},
+	{Group: "ValidateClaims", Recv: "Subject", Name: "countTokenWildcards", Only: "V2"},
+	{Group: "ValidateClaims", Recv: "RenamingSubject", Name: "Validate", Only: "V2"},
 	{Group: "Decode", Recv: "Header", Name: "Valid", Only: "V2"},
 	{Group: "Decode", Recv: "identifier", Name: "Kind", Only: "V2"},
 	{Group: "Decode", Recv: "identifier", Name: "Version", Only: "V2"},
@@ -290,6 +293,9 @@ func (t *tr) coqType(n ast.Node, ty types.Type) string {
 	if named, ok := ty.(*types.Named); ok && named.Obj().Name() == "go_log_t" {
 		return "(list go_event)"
 	}
+	if isStringsBuilder(ty) {
+		return "string" // a strings.Builder is the text written into it so far
+	}
 	if tup, ok := ty.(*types.Tuple); ok && tup.Len() >= 2 {
 		var ts []string
 		for i := 0; i < tup.Len(); i++ {
@@ -338,8 +344,14 @@ func (t *tr) coqType(n ast.Node, ty types.Type) string {
 }
 
 // isAbstractType: values the translation treats as opaque (type go_val)
+// isStringsBuilder: strings.Builder - a text that is only ever appended to
+func isStringsBuilder(ty types.Type) bool {
+	named, ok := derefType(ty).(*types.Named)
+	return ok && named.Obj().Pkg() != nil && named.Obj().Pkg().Path() == "strings" && named.Obj().Name() == "Builder"
+}
+
 func isAbstractType(ty types.Type) bool {
-	if isVR(ty) {
+	if isVR(ty) || isStringsBuilder(ty) {
 		return false
 	}
 	if named, ok := ty.(*types.Named); ok && named.Obj().Pkg() == nil && named.Obj().Name() == "error" {
@@ -514,6 +526,9 @@ func (t *tr) expr(e ast.Expr) string {
 				}
 			}
 			return "(" + strings.Join(vals, ", ") + ")"
+		}
+		if isStringsBuilder(t.info.TypeOf(x)) && len(x.Elts) == 0 {
+			return "\"\"" // an empty builder
 		}
 		if isAbstractType(t.info.TypeOf(x)) && len(x.Elts) == 0 {
 			return "go_nil" // the zero value of an opaque struct
@@ -1121,6 +1136,11 @@ func (t *tr) call(x *ast.CallExpr) string {
 	}
 	switch f := x.Fun.(type) {
 	case *ast.Ident:
+		if v, ok := t.info.Uses[f].(*types.Var); ok && t.names[v] != "" {
+			if _, isFunc := v.Type().Underlying().(*types.Signature); isFunc {
+				return "(" + t.names[v] + " " + strings.Join(args(), " ") + ")" // a local function
+			}
+		}
 		switch o := t.info.Uses[f].(type) {
 		case *types.Builtin:
 			switch o.Name() {
@@ -1183,6 +1203,9 @@ func (t *tr) call(x *ast.CallExpr) string {
 		}
 		t.fail(x, "call of %s", f.Name)
 	case *ast.SelectorExpr:
+		if id, ok := f.X.(*ast.Ident); ok && f.Sel.Name == "String" && len(x.Args) == 0 && t.info.Uses[id] != nil && t.names[t.info.Uses[id]] != "" && isStringsBuilder(t.info.Uses[id].Type()) {
+			return t.names[t.info.Uses[id]] // what was written into the builder
+		}
 		if id, ok := f.X.(*ast.Ident); ok && !implResults && t.isVRObj(t.info.Uses[id]) && f.Sel.Name == "IsEmpty" && len(x.Args) == 0 {
 			return "((go_llen " + t.names[t.info.Uses[id]] + ") =? (0)%Z)%Z" // (ValidationResults.IsEmpty, translated and proved in the Results group)
 		}
@@ -1500,6 +1523,11 @@ func (t *tr) assigned(n ast.Node) []*types.Var {
 		case *ast.ExprStmt:
 			// delete(m, k) and calls of methods that update their receiver
 			if c, ok := s.X.(*ast.CallExpr); ok {
+				if f, ok := c.Fun.(*ast.SelectorExpr); ok && f.Sel.Name == "WriteString" {
+					if id, ok := f.X.(*ast.Ident); ok && t.info.Uses[id] != nil && isStringsBuilder(t.info.Uses[id].Type()) {
+						add(f.X)
+					}
+				}
 				if id, ok := c.Fun.(*ast.Ident); ok && id.Name == "delete" && len(c.Args) == 2 {
 					add(c.Args[0])
 				}
@@ -1741,6 +1769,30 @@ func (t *tr) block0(stmts []ast.Stmt, c sctx, ind string) string {
 		}
 		return out + t.block(rest, c, ind)
 	case *ast.AssignStmt:
+		// f := func(p T) R { return e }: a local function of its parameters (what it reads of the enclosing function's
+		// variables it reads as they are here: such a literal may not assign anything)
+		if len(x.Lhs) == 1 && len(x.Rhs) == 1 && x.Tok == token.DEFINE {
+			if fl, ok := x.Rhs[0].(*ast.FuncLit); ok {
+				lid, isId := x.Lhs[0].(*ast.Ident)
+				if !isId || len(fl.Body.List) != 1 {
+					t.fail(x, "function literal with a body other than one return")
+				}
+				ret, isRet := fl.Body.List[0].(*ast.ReturnStmt)
+				if !isRet || len(ret.Results) != 1 {
+					t.fail(x, "function literal with a body other than one return")
+				}
+				var ps []string
+				for _, f := range fl.Type.Params.List {
+					for _, pn := range f.Names {
+						po := t.info.Defs[pn]
+						ps = append(ps, "("+t.bind(po)+" : "+t.coqType(f, po.Type())+")")
+					}
+				}
+				body := t.expr(ret.Results[0])
+				name := t.bind(t.info.Defs[lid])
+				return "let " + name + " := fun " + strings.Join(ps, " ") + " => " + body + " in" + nl + t.block(rest, c, ind)
+			}
+		}
 		// a.F = e for a data field of the receiver that is carried as a variable
 		if len(x.Lhs) == 1 && len(x.Rhs) == 1 && x.Tok == token.ASSIGN {
 			if v, ok := t.stateOf(x.Lhs[0]); ok {
@@ -2234,6 +2286,15 @@ func (t *tr) block0(stmts []ast.Stmt, c sctx, ind string) string {
 			if name, ok := t.pkgEffectCall(call); ok {
 				lg := t.names[t.logVar]
 				return "let " + lg + " := (" + lg + " ++ [GoDo \"" + name + "\"])%list in" + nl + t.block(rest, c, ind)
+			}
+		}
+		// bldr.WriteString(s) / WriteByte / WriteRune on a strings.Builder held in a local variable: the text grows
+		if call, ok := x.X.(*ast.CallExpr); ok {
+			if f, ok := call.Fun.(*ast.SelectorExpr); ok && f.Sel.Name == "WriteString" && len(call.Args) == 1 {
+				if id, ok := f.X.(*ast.Ident); ok && t.names[t.info.Uses[id]] != "" && isStringsBuilder(t.info.Uses[id].Type()) {
+					b := t.names[t.info.Uses[id]]
+					return "let " + b + " := (" + b + " ++ " + t.expr(call.Args[0]) + ")%string in" + nl + t.block(rest, c, ind)
+				}
 			}
 		}
 		// h.Write(b) for a local variable h holding an opaque value of an imported type that was made by a function of
